@@ -227,6 +227,27 @@ Theorem C17_replace_trivia_local :
     len_ok g1 = true /\ len_ok g2 = true.
 Proof. exact replace_trivia_local. Qed.
 
+(* `Token::set_leading_trivia` (also behind the builders' with_<token>_trivia / with_trivia setters): the
+   token's byte_len is the printed length of the modified token, and a tree that receives such a token through
+   either rewriter (clone_with_token) has right cached lengths everywhere: root length = printed length. *)
+Theorem C17_set_leading_trivia_len :
+  forall t tr,
+    tok_len (set_leading_trivia t tr) = trivia_len tr + text_len t /\
+    tok_len (set_leading_trivia t tr) = N.of_nat (length (token_bytes (set_leading_trivia t tr))) /\
+    token_bytes (set_leading_trivia t tr) = trivia_bytes tr ++ t_text t.
+Proof. exact set_leading_trivia_len. Qed.
+
+Theorem C17_replace_set_trivia_consistent :
+  forall k cs l i t tr, let g := GNode k cs l in
+    nth_error (leaves g) i = Some t ->
+    let t' := clone_with_token t (set_leading_trivia t tr) in
+    let g1 := token_rewrite nat_hook (replace_nth_t i t') nat_hook 0%nat g in
+    let g2 := rewrite (replace_nth_e i t') 0%nat g in
+    len_ok g1 = true /\ len_ok g2 = true /\
+    glen g1 = N.of_nat (length (bytes_of g1)) /\ glen g2 = N.of_nat (length (bytes_of g2)) /\
+    bytes_of g1 = bytes_of g2.
+Proof. exact replace_set_trivia_consistent. Qed.
+
 (* ---------------------------------------------------------------------------------------------- *)
 (* Non-vacuity: concrete inputs that exercise the hypotheses                                      *)
 (* ---------------------------------------------------------------------------------------------- *)
@@ -332,6 +353,8 @@ Print Assumptions C17_replace_one_token_local.
 Print Assumptions C17_replace_one_token_local_rewriter.
 Print Assumptions C17_replace_text_local.
 Print Assumptions C17_replace_trivia_local.
+Print Assumptions C17_set_leading_trivia_len.
+Print Assumptions C17_replace_set_trivia_consistent.
 Print Assumptions C17_ex_lex.
 Print Assumptions C17_ex_build.
 Print Assumptions C17_ex_parse.
